@@ -864,3 +864,48 @@ fn c02_k_arraydeque_wrapping_contract() {
     }
     kani::cover!(n == 4 && which == 0, "wrap of a full deque reached");
 }
+
+// ---------------------------------------------------------------------------------------------
+// Cross-check of the `extend` contract that the Verus fragment forward_while_ignoring_chords (unit
+// chordtab, property C09) assumes for a Wrapping ArrayDeque: `extend` takes only as many elements as
+// fit (arraydeque 0.5.1 lib.rs:486, `iter.into_iter().take(capacity - len)`) - what does not fit is
+// NOT kept - and `drain(0..)` empties the source whatever happens to the drained elements.  The
+// 4-slot instance of the const-generic type; every fill level of both deques.
+// ---------------------------------------------------------------------------------------------
+#[kani::proof]
+#[kani::unwind(6)]
+fn c09_k_arraydeque_extend_takes_what_fits() {
+    type D = ArrayDeque<u16, 4, arraydeque::behavior::Wrapping>;
+    let vals: [u16; 4] = kani::any();
+    let src_vals: [u16; 4] = kani::any();
+    let n: usize = kani::any();
+    let m: usize = kani::any();
+    kani::assume(n <= 4 && m <= 4);
+    let mut d: D = ArrayDeque::new();
+    let mut src: D = ArrayDeque::new();
+    let mut i = 0;
+    while i < n {
+        let _ = d.push_back(vals[i]);
+        i += 1;
+    }
+    let mut j = 0;
+    while j < m {
+        let _ = src.push_back(src_vals[j]);
+        j += 1;
+    }
+    d.extend(src.drain(0..));
+    let room = 4 - n;
+    let taken = if m <= room { m } else { room };
+    assert!(src.len() == 0); // everything was drained from the source ..
+    assert!(d.len() == n + taken); // .. but only what fits arrived
+    let g: usize = kani::any();
+    kani::assume(g < 4);
+    if g < n {
+        assert!(d.get(g) == Some(&vals[g]));
+    } else if g < n + taken {
+        assert!(d.get(g) == Some(&src_vals[g - n]));
+    } else {
+        assert!(d.get(g).is_none());
+    }
+    kani::cover!(m > room, "more drained than fits: the rest is dropped");
+}
